@@ -60,12 +60,15 @@ func genConc(g *genCtx) {
 		g.emit(c)
 	}
 	// two programs that are all fan-out: every goroutine builds with every coding as a candidate / re-uses its own builder
-	for k, hk := range []int{16, 17, 4} {
+	for k, hk := range []int{16, 17, 4, 18} {
 		if g.mine(np + k) {
 			g.emit(Case{"seed": r.Int63(), "g": maxG, "ops": 1, "procs": 8, "hk": hk})
 		}
 	}
 }
+
+var tmpl [2]*protocol.BatchDataCodingEncoder
+var tmplOnce [2]sync.Once
 
 func digest(s string) string {
 	h := fnv.New64a()
@@ -288,6 +291,25 @@ func concOp(kind int, seed int64) string {
 			}
 		}
 		return out
+	case 18: // a configured builder kept as a template: every request works on a copy of it
+		pi := rr.Intn(2)
+		proto := []string{"CMPP", "SMPP"}[pi]
+		tmplOnce[pi].Do(func() {
+			var pdc []datacoding.ProtocolDataCoding
+			for _, v := range batchValid[proto] {
+				pdc = append(pdc, toPDC(proto, v))
+			}
+			t := protocol.NewBatchDataCodingEncoder().Protocol(protocol.Protocol(proto)).DataCodings(pdc).Content("template", 1)
+			_, _, _ = t.Build(context.Background()) // (it has been used once, e.g. to validate the configuration)
+			tmpl[pi] = t
+		})
+		mine := *tmpl[pi]
+		txt := randText(rr, 1+rr.Intn(200))
+		if rr.Intn(2) == 0 {
+			txt = strings.Repeat("plain ascii ", 1+rr.Intn(30))
+		}
+		parts, a, err := mine.Content(txt, byte(rr.Intn(256))).Build(context.Background())
+		return fmt.Sprint(parts, a, err != nil)
 	default: // decode via dispatcher-less IDecode + relay
 		tn := typeNames[rr.Intn(len(typeNames))]
 		a := defaultAssign(rr, tn, true)
@@ -334,7 +356,7 @@ func runConc(c Case, tr *Tracer) {
 	ids := make([][]int, ng)
 	for g := 0; g < ng; g++ {
 		for i := 0; i < nops; i++ {
-			o := opd{rr.Intn(18), rr.Int63()}
+			o := opd{rr.Intn(19), rr.Int63()}
 			if i == 0 && g%2 == 0 {
 				o.kind = 9 // every second goroutine starts with a failing encode
 			}
